@@ -165,6 +165,8 @@ mod types {
 		pub struct Linked { pub v: u8, pub next: Option<Box<Linked>> }
 		pub enum MapTree { L, N { m: BTreeMap<u8, MapTree> } }
 		pub enum BoxTree { L { v: u16 }, N { l: Box<BoxTree>, r: Box<BoxTree> } }
+		pub enum ArcChain { End, Link { next: std::sync::Arc<ArcChain> } }
+		pub struct RcList { pub v: u8, pub rest: Option<std::rc::Rc<RcList>> }
 	}
 
 	#[derive(Encode, Decode, DecodeWithMemTracking, CompactAs, Debug, Clone, PartialEq, Eq, PartialOrd, Ord)]
@@ -232,6 +234,15 @@ mod types {
 			l: Box<BoxTree> = ty_(Ty::Holder { kind: HolderKind::Box, inner: Box::new(Ty::Ref("BoxTree".into())), mem: size_of::<BoxTree>() }),
 			r: Box<BoxTree> = ty_(Ty::Holder { kind: HolderKind::Box, inner: Box::new(Ty::Ref("BoxTree".into())), mem: size_of::<BoxTree>() }),
 		},
+	});
+	model_type!(enum ArcChain {
+		End = [0] {},
+		Link = [1] { next: std::sync::Arc<ArcChain> = ty_(Ty::Holder { kind: HolderKind::Arc, inner: Box::new(Ty::Ref("ArcChain".into())), mem: size_of::<ArcChain>() }) },
+	});
+	model_type!(struct RcList {
+		v: u8 = plain,
+		rest: Option<std::rc::Rc<RcList>> = ty_(Ty::Option(Box::new(Ty::Holder {
+			kind: HolderKind::Rc, inner: Box::new(Ty::Ref("RcList".into())), mem: size_of::<RcList>() })))
 	});
 	model_type!(struct CWrap { 0: u32 = plain });
 	model_type!(struct UsesCWrap { w: CWrap = compact, t: u8 = plain, s: CWrapSkip<u8> = compact });
